@@ -730,6 +730,28 @@ def mkValue (v : PyVal) (dt : Option Dt) : Option Lit :=
   | .bytes _ => none     -- bytes are read as an *encoded lexical form* (finding C09-K5): outside the model
   | _ => mkPy v dt
 
+/-- the late assignment in `__new__`: for xsd:normalizedString / xsd:token a `str` value is replaced by the
+    white-space-processed lexical form (a no-op after `mkLex`, `mkPy`: lemma `fixWs_mkLex`; it matters
+    when an existing literal is re-typed) -/
+def fixWs (dt : Option Dt) (lx : Str) (v : Option PyVal) : Option PyVal :=
+  if dt == some .normalizedString || dt == some .token then
+    match v with
+    | some (.str _) => some (.str lx)
+    | v => v
+  else v
+
+/-- `Literal(old)` / `Literal(old, datatype=dt)` for an existing literal `old` (first branch of `__new__`):
+    with a datatype the old *lexical form* is cast with the new datatype, without one datatype and value are
+    copied; no normalisation, `ill_typed` stays `None`; then the white-space post-processing -/
+def mkFromLit (old : Lit) (dt : Option Dt) : Lit :=
+  match dt with
+  | some d =>
+    let lx := postProcess (some d) old.lex
+    ⟨lx, some d, fixWs (some d) lx (castLex (some d) old.lex), none⟩
+  | none =>
+    let lx := postProcess old.dt old.lex
+    ⟨lx, old.dt, fixWs old.dt lx old.value, none⟩
+
 /-- `Literal.normalize()` -/
 def Lit.normalize (l : Lit) : Option Lit :=
   match l.value with
